@@ -38,6 +38,8 @@ def parseEv? (s : String) : Option Ev :=
   | ["closeCallInRecv"] => some .closeCallInRecv
   | ["closeCallInReconn"] => some .closeCallInReconn
   | ["connCallInRecv"] => some .connCallInRecv
+  | ["abandon", c] => c.toNat?.map .abandon
+  | ["connCancel"] => some .connCancel
   | ["reconnStart"] => some .reconnStart
   | ["reconnEnd"] => some .reconnEnd
   | ["reconnCall"] => some .reconnCall
